@@ -122,6 +122,8 @@ let handle line =
   | ["strip"; cs; h] -> hex (x_strip_set (unhex cs) (unhex h))
   | ["lstrip"; cs; h] -> hex (x_lstrip_set (unhex cs) (unhex h))
   | ["partition"; c; h] -> let ((a, f), r) = x_partition_c (List.hd (unhex c)) (unhex h) in hex a ^ " " ^ string_of_bool f ^ " " ^ hex r
+  | ["svnext"; k; h] -> (match x_sv_next (let rec n i = if i = 0 then O else S (n (i - 1)) in n (int_of_string k)) (unhex h) with Ok t -> "OK " ^ hex t | Err e -> "ERR " ^ string_of_err e)
+  | ["svstable"; h] -> res_bool (x_sv_stable (unhex h))
   | ["schemes"] -> Stdlib.String.concat "," (List.map ocaml_string xs_names)
   | ["vvalid"; sc; h] -> (match xs_find (coq_string sc) with None -> "NOSCHEME" | Some s -> res_bool (xs_valid s (unhex h)))
   | ["vctor"; sc; h] -> (match xs_find (coq_string sc) with None -> "NOSCHEME" | Some s ->
